@@ -344,6 +344,8 @@ def run(ctx, rep):
     write_rules(ctx, facts, rep)
     const_rules(facts, rep)
     count_rule(facts, rep, rule="C15-COUNT", only=r"ZipCrypto")
+    from rules.C01 import msdos_arg_order
+    msdos_arg_order(facts, rep, "C15-TIME")        # the Info-ZIP check byte is the high byte of the *recorded* DOS time, whatever it encodes
     from rules.C04 import ae2_rules, table_rules as crc_table_rules
     ae2_rules(facts, rep)              # reported as C15/C04-AE2SRC: only AE-2 switches the CRC off -- a ZipCrypto entry read under a colliding wrong password must end in a checksum error
     crc_table_rules(facts, rep)        # reported as C15/C04-TABLE
